@@ -552,7 +552,7 @@ class AnsiString:
                 ret_val = 0
             return ret_val
         else:
-            return val
+            return min(val, len(self._s))
 
     def __getitem__(self, val:Union[int, slice]) -> 'AnsiString':
         '''
